@@ -1,6 +1,7 @@
 package main
 
 import (
+	"code.gopub.tech/tpl/exp"
 	"context"
 	"fmt"
 	"strconv"
@@ -203,9 +204,14 @@ func raceC15(seed uint64, rounds int) string {
 			// a self-closed raw-text element at the top level: its close tag is a node of its own (built by another path
 			// of the scanner than ordinary tags) and is executed by every goroutine
 			body += fmt.Sprintf(`<script src="/s%d.js" /></script><title :text="${name}" /></title>`, k)
+			// names of the manager's GLOBAL scope, which is one object shared by every execution: here a scope the caller
+			// combined from two, read through both halves
+			body += fmt.Sprintf(`<em :text="${ga + gb%d + gc + gd%d}"></em>`, k%3, k%2)
 			files = append(files, [2]string{fmt.Sprintf("e%d.html", k), body})
 		}
-		cfg := tmplCfg{ap: ":", tp: "t:", global: map[string]any{}}
+		cfg := tmplCfg{ap: ":", tp: "t:", global: map[string]any{},
+			globalScope: exp.Combine(exp.NewScope(map[string]any{"ga": "A"}),
+				exp.Combine(exp.NewScope(map[string]any{"gb0": "B0", "gb1": "B1", "gb2": "B2"}), exp.NewScope(map[string]any{"gc": "C", "gd0": "D0", "gd1": "D1"})))}
 		m, le := newManager(cfg, files)
 		if le != "" {
 			return "FAIL C15 evaluator scenario does not load: " + le
